@@ -8,7 +8,7 @@ for d in ${@:-$(ls -d seeded/C*-* | sed 's|seeded/||')}; do
   p=${d%-*}; x=${d#*-}
   extra=$p
   case $d in C01-B) extra=C01,C04;; C07-A) extra=C07,C06;; C16-B) extra=C16,C17;; C10-A) extra=C10,C17;; C17-A) extra=C17,C10;; C17-B) extra=C17,C05;; esac
-  tools/seed_eval.py $p $x /nonexistent seeded/$d/patch.diff seeded/$d/demo.py --checks $extra --checks-only --scratch $S 2>&1 | grep -v "^stored" | tail -3
+  tools/seed_eval.py $p $x /nonexistent /verif/seeded/$d/patch.diff /verif/seeded/$d/demo.py --checks $extra --checks-only --scratch $S 2>&1 | grep -v "^stored" | tail -3
 done
 rm -rf $S $S-out
 tools/seed_index.py
